@@ -637,8 +637,6 @@ def classify(case, i, spec):
         return "scalar-source-none-row-read-as-end-of-result"
     if spec.f17 and op[0] in ONLYONE:
         return "unique-onlyone-after-partial-consumption"
-    if case["kind"].startswith("merged:") and any(o[0] in ONLYONE + ("close",) for o in case["ops"][:i]) and spec.merged:
-        return "merged-result-close-not-enforced"
     return "c10-oracle:%s:%s" % (case["kind"].split(":")[0], op[0])
 
 
@@ -693,9 +691,7 @@ def check_case(case, outs, extras):
 def check_op(case, spec, i, op, out, ex):
     """None = consistent, "dead" = unspecified from here, tuple = violation"""
     if out is not None and out.startswith("E:other"):
-        merged_closed = spec.merged and any(o[0] in ONLYONE + ("close",) for o in case["ops"][:i])
-        return ("merged-result-close-not-enforced" if merged_closed
-                else "c10-oracle:unexpected-exception:%s" % op[0], i, "op %s raised %s" % (op, out))
+        return ("c10-oracle:unexpected-exception:%s" % op[0], i, "op %s raised %s" % (op, out))
     try:
         exp = spec.expect(op, out)
     except Dead as d:
@@ -979,7 +975,7 @@ FIXED = [
      "ops": [("uq", "r", "ident"), ("fm", "r", 2), ("first", "r")]},
     {"kind": "iter", "sss": False, "width": 1, "rows": [[1], [1], [2]],
      "ops": [("uq", "r", "ident"), ("f1", "r"), ("one", "r")]},
-    # merged: close is not enforced
+    # merged: close() must be enforced (fixed in /repo b471573)
     {"kind": "merged:iter+iter", "sss": False, "width": 1, "groups": [[[1], [2]], [[3], [4]]],
      "ops": [("f1", "r"), ("close", "r"), ("all", "r", "all")]},
     # chunked, dynamic_yield_per: fetchone then fetchmany drops the rest of the chunk
@@ -1005,15 +1001,8 @@ FIXED_ORACLE_ONLY = [
 
 
 def trunc_for_model(case):
-    """number of leading ops sent to the model: MergedResult after a hard close is outside
-    the model (finding merged-result-close-not-enforced)"""
-    if not case["kind"].startswith("merged:"):
-        return len(case["ops"])
-    for i, o in enumerate(case["ops"]):
-        if o[0] in ONLYONE + ("close",):
-            return i + 1
-        if o[0] == "freeze":
-            return len(case["ops"])
+    """number of leading ops sent to the model (MergedResult.close() is enforced since the fix
+    b471573 in /repo, so merged results are compared to the end like every other kind)"""
     return len(case["ops"])
 
 
